@@ -2,4 +2,4 @@ From Coq Require Import Extraction ExtrOcamlBasic.
 From SV Require Import Model.Rows Model.Chunk Model.Rechunker Model.CopyRechunk Model.C16Run.
 Extraction Language OCaml.
 Extraction "model.ml" c16_template c16_store_of c16_load c16_fs0 c16_rechunker c16_rechunker_same c16_copy c16_onload
-  c16_perchunk lookup is_valid P_SRC P_DST P_TMP consecutive merge_tag rechunk_stream.
+  c16_perchunk lookup is_valid P_SRC P_DST P_TMP consecutive merge_tag merge_where rechunk_stream.
